@@ -2,7 +2,9 @@
    Only statements; every proof is [exact <lemma of proofs/TunerProofs.v>] (tiny glue allowed).
    Model: model/Tuner.v (tuning loop + generic TrialBackend bookkeeping); the scheduler, the
    workers ("world"), the poll order, the clock and the user criterion are ARBITRARY oracles [o]:
-   every theorem is for all parameters, all oracles and all fuel (= every prefix of every run). *)
+   every theorem is for all parameters - incl. BOTH settings of start_jobs_without_delay ([sjwd]),
+   asynchronous_scheduling and wait_trial_completion_when_stopping -, all oracles and all fuel
+   (= every prefix of every run). *)
 From Verif Require Import model.Base model.Tuner proofs.TunerProofs proofs.TunerComposeProofs proofs.TunerPolledProofs.
 
 (* --- budget ---------------------------------------------------------------
@@ -142,7 +144,7 @@ Definition ex_oracles : oracles :=
      o_sug := fun n => nth n [SStart 5 None; SStart 6 None; SStart 7 (Some 0%nat); SResume 0 None; SNothing] SNothing;
      o_clk := fun _ => 0%Q; o_ext := fun n => Nat.leb 5 n |}.
 Definition ex_params : params :=
-  {| n_workers := 2; async := true; wait_completion := false; max_failures := 3; c_wallclock := None; c_evals := None;
+  {| n_workers := 2; async := true; wait_completion := false; max_failures := 3; sjwd := true; c_wallclock := None; c_evals := None;
      c_started := None; c_completed := None; c_finished := None; c_cost := None; c_min_metric := None; c_max_metric := None |}.
 Example c01_example :
   let '(st, x) := run_loop ex_params ex_oracles 10 in
@@ -162,7 +164,7 @@ Definition ex_f_oracles : oracles :=
      o_sug := fun n => nth n [SStart 5 None; SResume 0 None] SNothing;
      o_clk := fun _ => 0%Q; o_ext := fun n => Nat.leb 3 n |}.
 Definition ex_f_params : params :=
-  {| n_workers := 1; async := true; wait_completion := false; max_failures := 3; c_wallclock := None; c_evals := None;
+  {| n_workers := 1; async := true; wait_completion := false; max_failures := 3; sjwd := true; c_wallclock := None; c_evals := None;
      c_started := None; c_completed := None; c_finished := None; c_cost := None; c_min_metric := None; c_max_metric := None |}.
 Example c01_discipline_example_failed_then_resumed :
   let '(st, x) := run_loop ex_f_params ex_f_oracles 10 in
@@ -173,37 +175,25 @@ Proof. vm_compute. repeat split. Qed.
 
 (* --- every started trial stays in the polled set until the loop observed the end of its run ---------------
    At every iteration boundary and at every exit of the loop without exception, for BOTH settings of
-   start_jobs_without_delay ([run_loop]: True, [run_loop_b]: False, /repo 1516ffc): a trial whose per-trial
-   projection is in the phase running/reporting (started or resumed, end of the run not yet told to the scheduler)
-   is in running_trials_ids, and the next poll lists it ([poll_order] always covers the running set).
+   start_jobs_without_delay (params field [sjwd]; False: /repo 1516ffc): a trial whose per-trial projection is in
+   the phase running/reporting (started or resumed, end of the run not yet told to the scheduler) is in
+   running_trials_ids, and the next poll lists it ([poll_order] always covers the running set).
    This is the statement the code BEFORE 1516ffc violated for start_jobs_without_delay=False (F-C02-2: the local
    name running_trials_ids was rebound, trials started in that call were never polled). *)
 Theorem c01_started_trials_stay_polled :
-  forall prm o fuel st x,
-    run_loop prm o fuel = (st, x) \/ run_loop_b prm o fuel = (st, x) -> x = LFuel \/ x = LExit None ->
+  forall prm o fuel st x, run_loop prm o fuel = (st, x) -> x = LFuel \/ x = LExit None ->
     forall t, phase_of t (s_trace st) = PR ->
       In t (s_running st) /\ In t (poll_order (s_running st) (o_ord o (s_np st))).
 Proof.
   intros prm o fuel st x H Hx t Ht.
-  assert (HP : PInv prm st).
-  { destruct H as [H|H]; [apply (run_loop_polled prm o fuel st x H)|apply (run_loop_b_polled prm o fuel st x H)]; exact Hx. }
-  destruct HP as (_ & _ & HR). split; [apply HR; exact Ht|apply poll_lists_running; apply HR; exact Ht].
+  destruct (proj2 (run_loop_polled prm o fuel st x H) Hx) as (_ & _ & HR).
+  split; [apply HR; exact Ht|apply poll_lists_running; apply HR; exact Ht].
 Qed.
 Print Assumptions c01_started_trials_stay_polled.
 
-(* worker budget and legal life cycle also for start_jobs_without_delay=False (outside the property's quantifier,
-   proved because the model has it): at every iteration boundary and every exit of the loop *)
-Theorem c01_budget_lifecycle_start_jobs_with_delay :
-  forall prm o fuel st x, run_loop_b prm o fuel = (st, x) ->
-    (NoDup (s_running st) /\ (length (s_running st) <= n_workers prm)%nat /\
-     (forall t, (t < s_ntrials st)%nat -> active (b_w (s_bt st t)) = true -> In t (s_running st))) /\
-    forall t, phase_of t (s_trace st) <> PBad.
-Proof. intros prm o fuel st x H. exact (proj1 (run_loop_b_polled prm o fuel st x H)). Qed.
-Print Assumptions c01_budget_lifecycle_start_jobs_with_delay.
-
-(* regression example for F-C02-2 (input of findings/C01-sjwd-false-started-trial-never-polled.json): the backend
-   reports one busy trial while two are listed as running; the code now counts max(1, 2) = 2 busy workers and sleeps;
-   every trial that is started is polled. *)
+(* regression example for F-C02-2 (input of findings/C01-sjwd-false-started-trial-never-polled.json), with
+   start_jobs_without_delay=False: the backend reports one busy trial while two are listed as running; the code now
+   counts max(1, 2) = 2 busy workers and sleeps; every trial that is started is polled. *)
 Definition ex_b_oracles : oracles :=
   {| o_world := fun n => nth n [([], WInProgress); ([], WInProgress);
                                ([{| r_metric := 1; r_cost := 1 # 2; r_ts := 4 |}], WCompleted); ([], WInProgress)]%Q ([], WInProgress);
@@ -211,8 +201,12 @@ Definition ex_b_oracles : oracles :=
      o_dec := fun _ => CONTINUE;
      o_sug := fun n => nth n [SStart 1 None; SStart 2 None; SStart 3 None] SNothing;
      o_clk := fun _ => 0%Q; o_ext := fun n => Nat.leb 5 n |}.
+Definition ex_b_params : params :=
+  {| n_workers := 2; async := true; wait_completion := false; max_failures := 3; sjwd := false; c_wallclock := None;
+     c_evals := None; c_started := None; c_completed := None; c_finished := None; c_cost := None; c_min_metric := None;
+     c_max_metric := None |}.
 Example c01_example_start_jobs_with_delay :
-  let '(st, out) := run_b ex_params ex_b_oracles 10 in
+  let '(st, out) := run ex_b_params ex_b_oracles 10 in
   out = Normal /\
   existsb (fun e => match e with EBBusy [1%nat] => true | _ => false end) (s_trace st) = true /\
   forallb (fun e => match e with
